@@ -133,6 +133,16 @@ Theorem C18_hist_judge_model : forall val t h s l ids p, tmps_ok t h = true -> h
 Proof. exact hist_ok_model. Qed.
 Print Assumptions C18_hist_judge_model.
 
+(* a store or a read that never returns gives a reading that is no value: rejected after any attempt,
+   whatever its fate, when a value was stored before (the judge of the observation "hung") *)
+Theorem C18_hist_judge_no_value : forall p v f l, hist_ok (RVal p) ((v, f, ROther) :: l) = false.
+Proof. exact hist_ok_no_value. Qed.
+Print Assumptions C18_hist_judge_no_value.
+
+Theorem C18_hung_rejected : hung_ok = false.
+Proof. exact hung_rejected. Qed.
+Print Assumptions C18_hung_rejected.
+
 (* quick store / read sequences on one long-lived store object (every store completes, reads follow): the
    judge - every read returns the value stored last - is the history judge on the all-Done history *)
 Theorem C18_reads_judge_is_hist : forall l p,
